@@ -74,6 +74,9 @@ type WatchCall struct {
 }
 
 type Server struct {
+	inflight atomic.Int32
+	// CancelLag: how long a List / Watch call takes to return after its context was cancelled
+	CancelLag time.Duration
 	incarnations map[[2]int]int // per key: how many times it was created
 	// Kind of the objects this server serves (kobj.KPod by default)
 	Kind    int
@@ -290,7 +293,26 @@ type notAnObject struct{ metav1.TypeMeta }
 func (o *notAnObject) DeepCopyObject() runtime.Object { c := *o; return &c }
 func (o *notAnObject) GetObjectKind() schema.ObjectKind { return &o.TypeMeta }
 
-func (s *Server) List(ctx context.Context, _ metav1.ListOptions) (runtime.Object, error) {
+// InFlight is the number of List / Watch calls that have been entered and have
+// not returned yet.
+func (s *Server) InFlight() int { return int(s.inflight.Load()) }
+
+// returning is a call's way back to its caller: a call that ends because its
+// context was cancelled takes CancelLag (virtual time) to return
+func (s *Server) returning(ctx context.Context, err error) {
+	if err != nil && ctx.Err() != nil && s.CancelLag > 0 {
+		time.Sleep(s.CancelLag)
+	}
+	s.inflight.Add(-1)
+}
+
+func (s *Server) List(ctx context.Context, opts metav1.ListOptions) (o runtime.Object, err error) {
+	s.inflight.Add(1)
+	defer func() { s.returning(ctx, err) }()
+	return s.list(ctx, opts)
+}
+
+func (s *Server) list(ctx context.Context, _ metav1.ListOptions) (runtime.Object, error) {
 	s.mu.Lock()
 	s.nlist++
 	n := s.nlist
@@ -558,7 +580,13 @@ func (c *conn) run() {
 	}
 }
 
-func (s *Server) Watch(ctx context.Context, opts metav1.ListOptions) (watch.Interface, error) {
+func (s *Server) Watch(ctx context.Context, opts metav1.ListOptions) (w watch.Interface, err error) {
+	s.inflight.Add(1)
+	defer func() { s.returning(ctx, err) }()
+	return s.watchConnect(ctx, opts)
+}
+
+func (s *Server) watchConnect(ctx context.Context, opts metav1.ListOptions) (watch.Interface, error) {
 	if s.BeforeWatch != nil {
 		s.BeforeWatch(opts.ResourceVersion)
 	}
